@@ -175,6 +175,8 @@ type recvSide struct {
 	Log                              *recvLogger
 	Dom                              *vfs.Domain
 	doms                             []*vfs.Domain
+	fmMu                             sync.Mutex
+	finalMoves                       []finalMove // every completed rename onto a final name, across instances
 	seq                              int
 	deadCh                           chan struct{} // closed when the current instance is crashed
 }
@@ -227,9 +229,44 @@ func (r *recvSide) setDirs() {
 	r.LogDir = filepath.Join(r.Root, "logs", "src")
 }
 
+// finalMove: a file arrived under its final name (seen at the file-system call, so also
+// when the instance dies before it tells anybody)
+type finalMove struct {
+	Rel, MD5 string
+	At       time.Time
+}
+
+func (r *recvSide) noteFinalMove(ev *vfs.Event, err error) {
+	if err != nil || ev.Op != vfs.OpRename || strings.HasSuffix(ev.Path2, ".lck") {
+		return
+	}
+	pre := r.FinalDir + string(os.PathSeparator)
+	if !strings.HasPrefix(ev.Path2, pre) {
+		return
+	}
+	fi, e := os.Lstat(ev.Path2)
+	if e != nil || !fi.Mode().IsRegular() {
+		return
+	}
+	b, e := os.ReadFile(ev.Path2)
+	if e != nil {
+		return
+	}
+	r.fmMu.Lock()
+	r.finalMoves = append(r.finalMoves, finalMove{Rel: strings.TrimPrefix(ev.Path2, pre), MD5: md5hex(b), At: time.Now()})
+	r.fmMu.Unlock()
+}
+
+func (r *recvSide) movesIntoFinal() []finalMove {
+	r.fmMu.Lock()
+	defer r.fmMu.Unlock()
+	return append([]finalMove(nil), r.finalMoves...)
+}
+
 // boot creates a Stage instance over the current directories
 func (r *recvSide) boot(consume bool) {
 	r.Dom = &vfs.Domain{Root: r.Root + string(os.PathSeparator)}
+	r.Dom.After = r.noteFinalMove
 	r.deadCh = make(chan struct{})
 	vfs.Register(r.Dom)
 	r.doms = append(r.doms, r.Dom)
